@@ -93,6 +93,7 @@ func ProfileFor(prop string) *Profile {
 		p.W = scale(p.W, map[string]int{OpDecom: 16, OpRmApp: 25, OpRelease: 70, OpDupConfirm: 15, OpDropConfirm: 10, OpReconfirm: 12, OpFirePH: 14, OpUpdAsk: 25})
 	case "C04":
 		p.Gang = 400
+		p.CrossSwap = 200
 		p.W = scale(p.W, map[string]int{OpDupConfirm: 20, OpReconfirm: 15, OpDropConfirm: 8, OpRmApp: 25, OpDecom: 14, OpEcho: 12})
 	case "C05":
 		p.Cfg.Limits, p.Cfg.QueueMax = 900, 300
@@ -466,8 +467,9 @@ func (e *Engine) scenarioInterruptedSwap(g *Gen, r *Rng) {
 }
 
 // scenarioCrossNodeSwap is a directed prefix: placeholders that only fit one node (they ask for a resource type only
-// that node has), the node is drained, and real asks that are smaller than the placeholder in one type arrive: the
-// replacement has to go to another node with a placeholder that is larger than the real allocation. Then the
+// that node has), the shim's predicates reject that node for the real pods, and real asks that are smaller than the
+// placeholder in one type arrive: the replacement has to go to another node with a placeholder that is larger than
+// the real allocation. Then the
 // confirmations, duplicates, releases and node events in a seeded order.
 func (e *Engine) scenarioCrossNodeSwap(g *Gen, r *Rng) {
 	if len(g.M.FifoLeaves) == 0 {
@@ -498,11 +500,12 @@ func (e *Engine) scenarioCrossNodeSwap(g *Gen, r *Rng) {
 		e.Do(&Op{Kind: OpAsk, App: id, Key: g.newKey(id), Res: map[string]int64{"memory": 2, "vcore": 2, "gpu": 1}, Placeholder: true, TaskGroup: "tg1"})
 	}
 	e.Do(&Op{Kind: OpSched, N: count + 2})
-	e.Do(&Op{Kind: OpDrain, Node: nA})
 	var reals []string
 	for i := 0; i < count; i++ {
 		k := g.newKey(id)
 		reals = append(reals, k)
+		// the shim's predicates reject the placeholders' node for the real pod: the replacement goes elsewhere
+		e.Do(&Op{Kind: OpPredDeny, Key: k, Node: nA})
 		size := []map[string]int64{{"memory": 1, "vcore": 2}, {"memory": 2, "vcore": 1}, {"memory": 2, "vcore": 2}, {"memory": 1, "vcore": 1}}[r.Intn(4)]
 		e.Do(&Op{Kind: OpAsk, App: id, Key: k, Res: size, TaskGroup: "tg1"})
 	}
@@ -514,7 +517,11 @@ func (e *Engine) scenarioCrossNodeSwap(g *Gen, r *Rng) {
 				e.Do(&Op{Kind: OpConfirm, Idx: 0})
 			}
 		},
-		func() { e.Do(&Op{Kind: OpUndrain, Node: nA}) },
+		func() {
+			if r.Chance(300) {
+				e.Do(&Op{Kind: OpDrain, Node: []string{nA, nB}[r.Intn(2)]})
+			}
+		},
 		func() { e.Do(&Op{Kind: OpSched, N: 2}) },
 		func() {
 			if op := g.make(OpDupConfirm); op != nil {
@@ -527,14 +534,18 @@ func (e *Engine) scenarioCrossNodeSwap(g *Gen, r *Rng) {
 			}
 		},
 		func() {
-			if r.Chance(200) {
+			if r.Chance(400) {
 				e.Do(&Op{Kind: OpDecom, Node: []string{nA, nB}[r.Intn(2)]})
 			}
 		},
 	}
 	order := r.Perm(len(acts))
-	if r.Chance(600) {
+	switch {
+	case r.Chance(350):
 		order = []int{0, 3, 2, 1, 4, 5}
+	case r.Chance(400):
+		// a node of the swap goes away while the swap is still in flight, the confirmation comes late
+		order = []int{5, 2, 0, 3, 1, 4}
 	}
 	for _, i := range order {
 		if e.stopNow() || e.Inconclusive != "" {
